@@ -19,6 +19,8 @@ pub enum Fail {
     StoppedPanic,
     /// a client asks for a restart; the start of the new incarnation fails
     StartErrOnRestart,
+    /// a handler outlasts a fatal limit (timeout 2, fail_on_timeout)
+    FatalTimeout,
 }
 
 pub struct X {
@@ -276,8 +278,12 @@ fn make_case_slow(script: (&'static str, Vec<Op>), subs: &[Vec<L>], stopper: boo
             role.started = vec![StartBeh::Ok, StartBeh::Err];
             clients.push(ClientSpec { init: vec![HInit::Addr], ops: vec![Op::Restart(H::Addr(0))] });
         }
+        Fail::FatalTimeout => role.work.push((msg_id(1, 0), Work { sleep: 5, ..Work::default() })),
     }
     let mut spawn = SpawnCfg::plain(mailbox);
+    if fail == Fail::FatalTimeout {
+        spawn.timeout = Some((2, true));
+    }
     if RECREATE.with(|r| r.get()) {
         spawn.strat = crate::scenes::Strat::Recreate;
     }
@@ -320,10 +326,10 @@ fn plain_cases(tier: Tier) -> Vec<Case> {
     let mbs: &[Mailbox] = if tier == Tier::Quick { &[Mailbox::U, Mailbox::B(1)] } else { &[Mailbox::U, Mailbox::B(0), Mailbox::B(1)] };
     for &mb in mbs {
         for script in owner_scripts() {
-            for fail in [Fail::No, Fail::HandlerPanic, Fail::StartErr, Fail::StoppedPanic, Fail::StartErrOnRestart] {
+            for fail in [Fail::No, Fail::HandlerPanic, Fail::StartErr, Fail::StoppedPanic, Fail::StartErrOnRestart, Fail::FatalTimeout] {
                 for stopper in [false, true] {
                     // the scene must terminate: a pure join needs a stop or a failure
-                    let terminates = stopper || self_terminating(script.0) || matches!(fail, Fail::HandlerPanic | Fail::StartErr | Fail::StartErrOnRestart);
+                    let terminates = stopper || self_terminating(script.0) || matches!(fail, Fail::HandlerPanic | Fail::StartErr | Fail::StartErrOnRestart | Fail::FatalTimeout);
                     if !terminates {
                         continue;
                     }
@@ -395,6 +401,13 @@ fn cases(tier: Tier) -> Vec<Case> {
         c.exec.select_choice = false;
         c
     }));
+    // the fatal limit given to the builder in its other orders (before / after the mailbox,
+    // fail_on_timeout before / after timeout, given twice): the actor fails all the same
+    for order in [1u8, 2, 3, 4, 5] {
+        let var = crate::progscene::Variant { builder_order: order, ..Default::default() };
+        let extra = crate::progscene::with_variant(var, || plain_cases(tier));
+        v.extend(extra.into_iter().filter(|c| c.desc.contains("fail=FatalTimeout")).enumerate().filter(|(i, _)| tier == Tier::Thorough || i % 5 == (order as usize) % 5).map(|(_, c)| c));
+    }
     // ... and (every fourth case; thorough: every second) once more under a configuration that must
     // not matter: a handler timeout nothing comes near, and the recreate strategy
     let nv = crate::progscene::Variant { generous_timeout: true, recreate: true, builder_order: 0 };
